@@ -683,7 +683,9 @@ func semanticMutation(t *rapid.T, m *wasmenc.Module) ([]byte, string) {
 		}
 		c.Exports = e
 	}
-	switch rapid.IntRange(0, 6).Draw(t, "semmut") {
+	switch rapid.IntRange(0, 9).Draw(t, "semmut") {
+	case 7, 8, 9:
+		return danglingIndex(t, &c)
 	case 0, 1:
 		c.Mems, c.Datas, c.DataCnt = nil, nil, false
 		dropExports(wasmenc.KMem)
@@ -727,6 +729,86 @@ func semanticMutation(t *rapid.T, m *wasmenc.Module) ([]byte, string) {
 		}
 		return c.Encode(), "sem-set-start"
 	}
+}
+
+// danglingIndex adds an exported function "dangle" (() -> ()) whose body uses exactly one index
+// immediate that lies at, or just beyond, the end of its index space (functions, globals,
+// locals, labels, types, tables, element and data segments), optionally together with an
+// element segment / export / global initialiser that names the same dangling function index
+// (ref.func is only valid for "declared" functions, and what declares a function is checked
+// elsewhere than the instruction). With k < 0 the index is in range and the module stays valid.
+func danglingIndex(t *rapid.T, c *wasmenc.Module) ([]byte, string) {
+	c.Types = append([]wasmenc.FuncType{}, c.Types...)
+	c.Elems = append([][]byte{}, c.Elems...)
+	c.Globals = append([]wasmenc.Global{}, c.Globals...)
+	nimp := c.NumImportedFuncs()
+	nfuncs := nimp + uint32(len(c.Funcs)) + 1 // incl. the function added below
+	impGlobals, impTables := uint32(0), uint32(0)
+	for _, im := range c.Imports {
+		switch im.Kind {
+		case wasmenc.KGlobal:
+			impGlobals++
+		case wasmenc.KTable:
+			impTables++
+		}
+	}
+	k := rapid.IntRange(-1, 3).Draw(t, "beyond")
+	at := func(n uint32) uint32 {
+		v := int64(n) + int64(k)
+		if v < 0 {
+			v = 0
+		}
+		return uint32(v)
+	}
+	b := wasmenc.NewB()
+	kind := rapid.SampledFrom([]string{"ref.func+declare", "ref.func+declare", "ref.func+declare", "ref.func", "call", "global.get", "local.get", "br", "call_indirect-type", "call_indirect-table", "table.get", "elem.drop", "data.drop", "export", "start", "elem-item"}).Draw(t, "dangling")
+	switch kind {
+	case "ref.func+declare", "ref.func":
+		f := at(nfuncs)
+		b.RefFunc(f).Drop()
+		if kind == "ref.func+declare" {
+			switch rapid.IntRange(0, 3).Draw(t, "declare") {
+			case 0:
+				c.Elems = append(c.Elems, wasmenc.DeclElemFuncs([]uint32{f}))
+			case 1:
+				c.Elems = append(c.Elems, wasmenc.PassiveElemFuncs([]uint32{f}))
+			case 2:
+				c.Exports = append(c.Exports, wasmenc.Export{Name: "dangling-export", Kind: wasmenc.KFunc, Idx: f})
+			default:
+				c.Globals = append(c.Globals, wasmenc.Global{Type: wasmenc.FuncRef, Init: wasmenc.NewB().RefFunc(f).Bytes()})
+			}
+		}
+	case "call":
+		b.Call(at(nfuncs))
+	case "global.get":
+		b.GlobalGet(at(impGlobals + uint32(len(c.Globals)))).Drop()
+	case "local.get":
+		b.LocalGet(at(0)).Drop()
+	case "br":
+		b.Block().Br(at(2)).End()
+	case "call_indirect-type":
+		b.I32Const(0).CallIndirect(at(uint32(len(c.Types))+1), 0)
+	case "call_indirect-table":
+		b.I32Const(0).CallIndirect(uint32(len(c.Types)), at(impTables+uint32(len(c.Tables))))
+	case "table.get":
+		b.I32Const(0).TableGet(at(impTables + uint32(len(c.Tables)))).Drop()
+	case "elem.drop":
+		b.ElemDrop(at(uint32(len(c.Elems))))
+	case "data.drop":
+		b.DataDrop(at(uint32(len(c.Datas))))
+	case "export":
+		c.Exports = append(c.Exports, wasmenc.Export{Name: "dangling-export", Kind: byte(rapid.IntRange(0, 3).Draw(t, "xkind")), Idx: at(nfuncs + 2)})
+	case "start":
+		c.Start = wasmenc.P(at(nfuncs + 1))
+	default:
+		c.Elems = append(c.Elems, wasmenc.PassiveElemFuncs([]uint32{0, at(nfuncs)}))
+	}
+	c.Types = append(c.Types, wasmenc.FuncType{})
+	c.Funcs = append(c.Funcs, wasmenc.Func{Type: uint32(len(c.Types) - 1), Body: b.Bytes()})
+	// first among the exports, so that it is executed when the module is accepted
+	c.Exports = append([]wasmenc.Export{{Name: "dangle", Kind: wasmenc.KFunc, Idx: nfuncs - 1}}, c.Exports...)
+	evid.Label("dangling:"+kind, 1)
+	return c.Encode(), fmt.Sprintf("sem-dangling-%s%+d", kind, k)
 }
 
 func propSemantic(t *rapid.T) {
